@@ -16,7 +16,10 @@ RULE = ("bond graphs without self-loops and without 3-membered rings in which ev
         "that MIX guessed bond orders in one structure (C_R/N_R next to C_3/H_/O_3, C_2 pairs) and toluene-like "
         "aromatic molecules (ring + methyl/hydroxyl/vinyl). Expected coefficient texts are evaluated in a fresh state "
         "(every argument explicit), re-evaluated after all assign calls, and cross-checked against the independent "
-        "UFF formula oracle of the C18 harness. "
+        "UFF formula oracle of the C18 harness. Dihedral typing additionally on chains that mix centres WITHOUT a defined "
+        "torsion (sp X_1, metals) with ordinary sp3/sp2 centres, the term list ordered dropped-first / kept-first / "
+        "alternating / shuffled and in EVERY permutation when there are <= 4 dihedrals; the renamed second run is itself "
+        "checked by the typing oracle. "
         "Thorough: additionally EVERY triangle-free graph on <= 6 labelled vertices with all degrees >= 1. "
         "Non-trivial = distinct input whose graph has a branch (degree >= 3) or a ring.")
 
@@ -660,7 +663,9 @@ def oracle_reorder(kind, terms, uff, exclude, r1, r2):
 def term_texts(r):
     """term -> coefficient text (multiset-safe: list of pairs, sorted)"""
     r = r["ok"]
-    return sorted((tuple(t), r["coeffs"][ty]) for t, ty in zip(r["terms"], r["types"]))
+    m = len(r["coeffs"])
+    return sorted((tuple(t), r["coeffs"][ty] if 0 <= ty < m else "<type id %d has no entry in the coefficient table>" % ty)
+                  for t, ty in zip(r["terms"], r["types"]))
 
 
 def renamed(terms, uff, exclude, sigma, perm):
@@ -837,6 +842,10 @@ def check_assign(ctx, bt, kind, terms, uff, exclude, nontrivial, rng=None):
         bad = oracle_rename(kind, terms, uff, exclude, sigma, perm, r, r2)
         if bad:
             ctx.fail(bad, inp2, observed={"first": r, "second": r2}, tags=["rename", kind])
+        bad = oracle_assign(kind, t2, u2, e2, r2)   # the second run is a typing case of its own
+        if bad:
+            ctx.fail(bad, {"op": "assign", "kind": kind, "terms": t2, "uff": u2, "exclude": e2,
+                           "params": param_table(kind, t2, u2)}, observed=r2, tags=["assign", kind])
         # the second run is also a typing case of its own for the tie
         bt.tie({"op": "assign", "kind": kind, "terms": t2, "uff": u2, "exclude": e2,
                 "params": param_table(kind, t2, u2)}, r2)
@@ -949,6 +958,76 @@ def graph_case(ctx, bt, edges, kind, typing=True, given_uff=None):
     check_retype(ctx, bt, uff)
 
 
+SP_OR_METAL = ["C_1", "C_1", "N_1", "Zr3+4", "Cu4+2", "Zn4+2", "Fe6+3", "Ti6+4"]
+ORDINARY = ["C_3", "C_3", "C_2", "C_R", "N_3", "O_3", "N_R", "C_2"]
+
+
+def g_torsionless(rng):
+    """a heavy-atom chain (4-8 atoms, a few H_/C_3 branches) in which torsion-less centres (sp `X_1`, metals) and
+    ordinary sp3/sp2 centres alternate in blocks, e.g. C_3-C_1-C_1-C_3-C_3-C_2-C_2: some dihedral types have no torsion
+    defined, others do; returns (edges, per-atom UFF types), vertices renumbered at random"""
+    n = rng.randint(5, 8)
+    uff = []
+    while len(uff) < n:
+        pool = SP_OR_METAL if (len(uff) // 2 + rng.randrange(2)) % 2 else ORDINARY
+        uff += [rng.choice(pool)] * 1 + [rng.choice(pool)]
+    uff = uff[:n]
+    if not any(u in SP_OR_METAL for u in uff[1:-1]):
+        uff[rng.randint(1, n - 2)] = rng.choice(SP_OR_METAL)
+    edges = [(i, i + 1) for i in range(n - 1)]
+    for _ in range(rng.randint(0, 3)):
+        edges.append((rng.randrange(len(uff)), len(uff)))
+        uff.append(rng.choice(["H_", "H_", "C_3", "O_2"]))
+    n = len(uff)
+    p = list(range(n))
+    rng.shuffle(p)
+    edges = sorted(set(norm((p[a], p[b])) for a, b in edges))
+    types = [None] * n
+    for a in range(n):
+        types[p[a]] = uff[a]
+    return edges, types
+
+
+def torsionless_cases(ctx, bt, count):
+    """dihedral typing where types WITHOUT a defined torsion are listed before, between and after surviving types:
+    the enumerated order, dropped-first, kept-first, alternating, and EVERY permutation when there are <= 4 dihedrals"""
+    rng = ctx.rng
+    for _ in range(count):
+        edges, uff = g_torsionless(rng)
+        bonds = listing(rng, edges, dup=False)
+        terms = real_enum("dihedrals", bonds)["terms"]
+        if len(terms) < 2:
+            continue
+        mult = multiplicity(terms)
+
+        def undefined(t):
+            return key_text("dihedral", [uff[a] for a in t], mult[central(t)]) is None
+        dropped = [t for t in terms if undefined(t)]
+        kept = [t for t in terms if not undefined(t)]
+        ctx.count("torsionless:" + ("mixed" if dropped and kept else "all-dropped" if dropped else "none-dropped"))
+        orders = [terms, dropped + kept, kept + dropped,
+                  [t for pair in itertools.zip_longest(dropped, kept) for t in pair if t is not None]]
+        if len(terms) <= 4:
+            orders += [list(p) for p in itertools.permutations(terms)]
+            ctx.count("torsionless-all-permutations")
+        else:
+            for _ in range(3):
+                o = list(terms)
+                rng.shuffle(o)
+                orders.append(o)
+        seen = set()
+        for k, o in enumerate(orders):
+            key = tuple(tuple(t) for t in o)
+            if key in seen:
+                continue
+            seen.add(key)
+            ex = None
+            if k >= 4 and rng.random() < 0.2:
+                ex, _ = rand_exclude(rng, o, len(uff), 4)
+            check_assign(ctx, bt, "dihedral", [list(t) for t in o], uff, ex, bool(dropped and kept),
+                         rng=rng if k < 4 else None)
+
+
 def typekey_cases(ctx, bt, count):
     rng = ctx.rng
     keys = table_keys()
@@ -986,6 +1065,8 @@ def run(ctx, oracle_only=False):
     for _ in range(ctx.n(60, 600)):
         edges, types = g_aromatic(rng)
         graph_case(ctx, bt, edges, "aromatic", given_uff=types)
+    # chains mixing torsion-less centres (sp, metals) with ordinary ones; dropped types listed before kept ones
+    torsionless_cases(ctx, bt, ctx.n(60, 600))
     typekey_cases(ctx, bt, ctx.n(300, 3000))
     state_check(ctx)
     # types outside retype's domain (element not in the mass table): compared with the model only
